@@ -143,3 +143,25 @@ EXT = {
 }
 for _k, _v in EXT.items():
     CHECKS[_k]["text"] += _v
+
+# ---- families added after seeded rounds 5-7
+EXT2 = {
+    "C01": " Quick structured families also at n = 16..40; every 3x3 matrix over {0,1,-1,t} / {0,1,2,-t} with a tiny entry t = 2^-30 (f32: 2^-12) and permuted 4x4 variants, with the clause max|L_ij| <= 1 (partial pivoting really picks a largest entry).",
+    "C03": " 'Adjacent floats' fill family ({x, next_up(x), next_down(x)}) for unique / max / min / argmax / binarize / equality.",
+    "C04": " Real-valued class-label tables (span = k-1 but not unit-spaced, fractional offsets, large adjacent integers) and offset regression targets.",
+    "C05": " Real-valued class-label tables and regression targets with a large common offset (gains judged from centred targets).",
+    "C06": " Fractional labels sharing integer parts, regressor row-count family n = 4..120 predicted in one call, OOB labels must be original labels even without an out-of-bag tree, identical fits are also compared with the library's `==` on a centred data set (thresholds exactly 0).",
+    "C07": " Size grid p in {1,2,3,5,6,7,8} x n in {p+1,18,23,33,47,64,65,67,79,80} for OLS and all ridge configurations.",
+    "C09": " Nearly separable (1-2 flipped samples) and clustered layouts for k = 2..4 at scale 1e2; non-dyadic label table.",
+    "C10": " Stiff SVR problems needing 1e5..1e6 SMO steps; SVR with near-duplicate rows at large norms (termination: two inputs on which the unchanged library loops for ever are recorded as known findings, thorough tier only); kernel pairs also mirrored (b -> -b) and a second sigmoid parameter set.",
+    "C11": " Decimal user priors (every ordered vector of positive tenths, k = 2..5); large adjacent integer labels beyond f32 resolution; Gaussian features with a large offset and tiny spread.",
+    "C12": " Small-scale (2^-13, 2^-20) families with tolerances scaled to the data.",
+    "C15": " AUC on scores one ulp apart and on scores scaled by 1e-17 / 2^-60; R^2 / MSE / MAE at scales 2^-30, 2^-13 and on targets 5 + k*1e-9; signed-zero labels in the length sweep.",
+    "C16": " Call sequences (a shuffled split / cross-validation followed on the same thread by an unshuffled one) and deviation-bounded shuffles of large folds (n = 32..64).",
+    "C17": " Mahalanobis at orders 12..30 with small variances (f32 and f64), from data with 17..113 rows, and vectors whose components differ by many orders of magnitude.",
+    "C18": " Parameters also filled through the public field; extreme pass-through values (signed zeros, subnormals, sub-epsilon, largest magnitudes) compared bit for bit; invalid values next to the legal extreme codes 0 and 65535.",
+    "C19": " Class-size family (4..7 classes, every size vector) for the count-based naive-Bayes subjects.",
+    "C20": " Off-centre value alphabet (1e6 / 1e8 + code) for the statistics operations and the estimators consuming them; nearly-equal value alphabet {0.3, 0.1+0.2, 1, 1+eps} for unique / max / min / argmax / equality and as class labels.",
+}
+for _k, _v in EXT2.items():
+    CHECKS[_k]["text"] += _v
